@@ -1246,7 +1246,9 @@ namespace c21_lltiming {
             const bool tx_not_empty = t.buffer[ 1 ] != 0;
             // (receive buffer full and the peripheral repeats a PDU: both rings are full, acknowledgements are not seen any more --
             //  a flow control matter of C15-C17, no progress can be expected here)
-            progress_possible = b.size != 0 || !tx_not_empty;
+            progress_possible = b.size != 0 || ( !tx_not_empty && !dev->pending_tx() );
+            if ( !progress_possible )
+                rep.label( "rx-full-and-tx-pending(no acknowledgements seen)" );
             tr( "event ", e, " cnt ", sched_cnt, " ch ", r.evt_channel, " win ", r.evt_start, "..", r.evt_end, b.size ? "" : " RXFULL", " C->P ", verif::hex( pdu.data(), pdu.size() ), "  P->C ",
                 verif::hex( t.buffer, std::size_t( t.buffer[ 1 ] ) + 2 ), o.lost ? " (reply lost)" : "" );
             if ( !o.lost )
